@@ -81,7 +81,8 @@ func checkFileObject(keys ...string) checkerFunc {
 				// User specified a custom driver, which might have it's own way to set content
 				return nil
 			}
-			if _, ok := v["external"]; !ok {
+			// `external: false` is the same as no `external` at all
+			if external, ok := v["external"]; !ok || external == false || external == "false" {
 				return fmt.Errorf("%s: one of %s must be set", p, strings.Join(keys, "|"))
 			}
 		}
